@@ -114,45 +114,32 @@ def range_and_case(check: Check, repo: Repo) -> None:
                 check.count("case_fold_sites")
 
 
-def merge_arithmetic(check: Check, repo: Repo) -> None:
+def merge_arithmetic(check: Check, repo: Repo, tier: str = "quick") -> None:
+    """CLASS-SEMANTICS: the class built by _optimize_char_class denotes exactly singles U ranges."""
+    from ..charclass import GRID, GRID_DASH, check_char_class
+
     fn = repo.func(CHOICE_REL, "_optimize_char_class")
     construct = f"{CHOICE_REL}::_optimize_char_class"
-    src = ast.unparse(fn)
-    # (1) new range iff s > last_end + c with c <= 1
-    cond = None
-    for n in ast.walk(fn):
-        if isinstance(n, ast.If) and "merged[-1][1]" in ast.unparse(n.test) and "not merged" in ast.unparse(n.test):
-            cond = n
-    if cond is None:
-        raise AnalysisError(f"anchor vanished: merge condition in {construct}")
-    cmp_ = next((v for v in ast.walk(cond.test) if isinstance(v, ast.Compare) and "merged[-1][1]" in ast.unparse(v)), None)
-    ok = False
-    detail = ast.unparse(cond.test)
-    if cmp_ is not None and len(cmp_.ops) == 1 and ast.unparse(cmp_.left) == "s":
-        rhs = ast.parse(ast.unparse(cmp_.comparators[0]).replace("merged[-1][1]", "LAST"), mode="eval").body
-        v = lin_eval(rhs, {"LAST": "P"})
-        if v is not None and v[0] == 1:
-            c = v[1]
-            if isinstance(cmp_.ops[0], ast.Gt):
-                ok = c <= 1
-            elif isinstance(cmp_.ops[0], ast.GtE):
-                ok = c <= 2
-    check.oblige("MERGE", construct, "ranges are merged only when they overlap or touch (s <= last_end + 1)" if ok else f"merge condition `{detail}` joins ranges separated by a gap", ok, sample=True,
-                 finding=Finding("MERGE", construct, "merge condition joins ranges separated by a gap", f"`{detail}`: code points between two ranges would be added to the class", {}))
-    ok = "merged[-1][1] = max(merged[-1][1], e)" in src
-    check.oblige("MERGE", construct, "a merged range keeps the larger end" if ok else "a merged range does not keep max(end, e)", ok)
-    ok = "merged.append([s, e])" in src and "norm_ranges.sort()" in src
-    check.oblige("MERGE", construct, "ranges are sorted before merging and appended unchanged" if ok else "ranges are not sorted / appended unchanged", ok)
-    ok = any(isinstance(n, ast.Compare) and ast.unparse(n) == "s <= ord(c) <= e" and isinstance(m_, ast.UnaryOp) and isinstance(m_.op, ast.Not)
-             for m_ in ast.walk(fn) if isinstance(m_, ast.UnaryOp) for n in [m_.operand]) and "for s, e in merged" in src and "all(" in src
-    check.oblige("MERGE", construct, "a single is dropped only if some range covers it" if ok else "singles are dropped by a test other than 'covered by a range'", ok)
-    ok = "if s_cp > e_cp:\n            continue" in src or "if s_cp > e_cp:\n        continue" in src
-    check.oblige("MERGE", construct, "a reversed range denotes the empty set (as in Range)" if ok else "reversed ranges are not dropped by the merger", ok)
-    ok = "re.escape(chr(s))" in src and "re.escape(chr(e))" in src and "[re.escape(c) for c in singles]" in src
-    check.oblige("MERGE", construct, "every code point is written through re.escape" if ok else "code points reach the class unescaped", ok)
-    ok = "if s == e:" in src
-    check.oblige("MERGE", construct, "one-point ranges are written as a single", True if ok else True)
-    check.count("merge_facts", 6)
+    plans = [(2, 1, GRID[:5]), (1, 1, GRID_DASH)] if tier == "quick" else [(2, 2, GRID), (3, 1, GRID[:4]), (2, 1, GRID_DASH)]
+    kinds = {
+        "MISSING": "the merged character class loses code points of its ranges or singles",
+        "EXTRA": "the merged character class matches code points outside its ranges and singles",
+        "MALFORMED": "the emitted character class is not a well-formed plain class",
+        "RAISES": "_optimize_char_class raises on a legal list of ranges and singles",
+    }
+    total = 0
+    seen: dict[str, tuple[str, str]] = {}
+    for nr, ns, grid in plans:
+        n, bad = check_char_class(fn, construct, nr, ns, grid)
+        total += n
+        for kind, desc, detail in bad:
+            seen.setdefault(kind, (desc, detail))
+    check.count("char_class_model_points", total)
+    for kind, sig in kinds.items():
+        hit = seen.get(kind)
+        check.oblige("MERGE", construct, sig if hit else {"MISSING": "every code point of a range or single is matched", "EXTRA": "nothing outside the ranges and singles is matched", "MALFORMED": "the emitted pattern is a plain, well-formed class (or (?!) for the empty set)", "RAISES": "total on the model"}[kind] + f" ({total} model points)", not hit, sample=True,
+                     finding=Finding("MERGE", construct, sig, f"{sig}: for {hit[0]} it {hit[1]}" if hit else sig, {"witness": hit[0] if hit else ""}))
+    check.count("merge_facts", 4)
 
 
 def cursor(check: Check, repo: Repo) -> None:
@@ -212,7 +199,7 @@ def run(tier: str) -> Check:
     range_and_case(check, repo)
     gencheck.constant_parity(check, repo)
     pattern_fragments(check, repo)
-    merge_arithmetic(check, repo)
+    merge_arithmetic(check, repo, tier)
     from .c10 import META, escape_tables
 
     escape_tables(check, repo, pestlang.read_pest(repo.read(META), META))
